@@ -342,7 +342,7 @@ struct ilut {
 
                 // Get largest p elements in L and U.
                 ptr lend = std::min(b + lp, m);
-                ptr uend = std::min(m + up, e);
+                ptr uend = std::min(m + up + 1, e); // the diagonal is kept in addition to the U entries
 
                 if (lend != m) std::nth_element(b, lend, m, by_abs_val(dia));
                 if (uend != e) std::nth_element(m, uend, e, by_abs_val(dia));
